@@ -439,6 +439,12 @@ enum Unit {
 }
 
 fn worker_main<E: Engine>(args: &Args, i: u64, n: u64) -> i32 {
+    // a worker never outlives the process that started it (a killed driver must not leave
+    // workers spinning inside a loop of the code under test)
+    // SAFETY: plain prctl call with constant arguments.
+    unsafe {
+        libc::prctl(libc::PR_SET_PDEATHSIG, libc::SIGKILL);
+    }
     let prop = args.prop.as_str();
     let (def_runs, def_budget) = E::budget(prop, args.tier);
     let runs = args.runs.unwrap_or(def_runs);
